@@ -21,8 +21,8 @@ META = dict(
     assumptions=['timestamps are well-formed `YYYY/MM/DD HH:MM:SS` between 1990 and 2060',
                  'account names and descriptions are plain words (no double spaces, tabs, `;` or `|`)',
                  'units above hours are declared as `C 1.00<unit> = <n><unit below>` (one larger unit per smaller one); commodity_t::time_colon_by_default is off',
-                 '--now is given (a date: the close of still-open sessions happens at its midnight, or at 31 December of a year / apply year directive in force at the end of the file)',
-                 'alias directives are not applied to time-clock lines (observed, F110); at most one unclosed `year` directive per file, at its top',
+                 '--now is given (a date: the close of still-open sessions happens at its midnight whatever year directives the file leaves open; an included file is closed at the clock of its include line, which is 31 December of a year / apply year directive open there in the including file)',
+                 'alias directives are not applied to time-clock lines (observed, F110); an unclosed `year` directive is only written at the top of a file (inside a block its entry would answer the `end` of the block)',
                  'a check-out naming an account that is not open while exactly one other account is open closes that account (F12): observed and modelled, not judged by the oracle'],
 )
 
@@ -349,9 +349,10 @@ def resolve(case):
     top_account()->find_account(text) - the master account (--master-account, or for an included file the
     account current at the include line), the enclosing `apply account` arguments and the written name,
     joined by `:`; a bare check-in names "" below that, a bare check-out passes NULL.  The time at which
-    a file's open sessions are closed is CURRENT_TIME() at its end: --now, unless a `year`/`apply year`
-    directive is in force there (it sets `epoch`; the entry on top of the apply stack is undone at the
-    end of a file, textual.cc:302-305).
+    a file's open sessions are closed is CURRENT_TIME() at its end, after every `year`/`apply year` entry
+    the file itself left open has been undone (instance_t::parse): --now for the main file; for an
+    included file the clock in force at its include line - 31 December of a year directive of the
+    including file when one is open there.
     -> list of instances in include order: dict(id, file, evs (model events), now, at (line of each event),
        incs [(events before the include, line, child id)])"""
     insts = []
@@ -395,8 +396,13 @@ def resolve(case):
                     acct = join(top, w).encode()
                 inst['evs'].append([e['kind'], e['t'], e['cap'], acct, e['desc'].encode()])
                 inst['at'].append(ln)
-        if stack[-1][0] == 'year':
-            state['epoch'] = stack[-1][1]
+        # the end of a file undoes every entry the file left on its apply stack, newest first, each year
+        # entry restoring the clock it replaced (instance_t::parse): the clock is again what it was when
+        # the file began, and that is when its open sessions are closed
+        while len(stack) > 1:
+            kk, a = stack.pop()
+            if kk == 'year':
+                state['epoch'] = a
         inst['now'] = state['epoch']
     one(case['lines'], 'tl.dat', case.get('master') or '', 'p')
     return insts
@@ -712,7 +718,7 @@ def oracle(files, main, master, now_s, r, db, bal=None):
     if failed:
         ev_lines = {(t[1], t[2]) for t in toks if t[0] == 'ev'}
         at_lines = [x for x in r['errs'] if (x[0], x[1]) in ev_lines]
-        if not at_lines and (has_year or any(tin > now for _, tin, _, _ in still)):
+        if not at_lines and (any(tin > now for _, tin, _, _ in still) or (has_year and any(fi != main for _, _, fi, _ in still))):
             return viol, notes        # sessions left open that begin after the closing time: not the statement's subject
         viol.append(('error-spurious', 'no line is a check-out without check-in, a second check-in or an early check-out, but ledger fails',
                      '%s close=%s' % (r['errs'], r['close']), 'success'))
@@ -772,7 +778,7 @@ def oracle(files, main, master, now_s, r, db, bal=None):
         want[a] = want.get(a, 0) + int((tout - tin).total_seconds())
     for a, tin, fi, lin in still:
         end = now
-        if has_year:
+        if has_year and fi != main:       # an included file is closed at the clock of its include line
             mine = by_line.get((fi, lin), [])
             ends = [datetime.strptime(w['cout'], '%Y/%m/%d %H:%M:%S') for w in mine]
             end = max(ends) if ends else tin
@@ -974,7 +980,8 @@ def gen_blocks_directed(rng):
     L = lambda e, w: dict(k='ev', e=dict(e, written=w))
     A = lambda a: dict(k='apply-account', arg=a, text='apply account ' + a)
     END = dict(k='end', text='end apply account')
-    k = rng.randrange(6)
+    k = rng.randrange(10)
+    Y = lambda kind, y: dict(k=kind, y=y, text=('apply year %d' if kind == 'apply-year' else rng.choice(['year %d', 'Y %d', 'Y%d'])) % y)
     if k == 0:      # one session inside a block
         lines = [A('Proj'), L(E('i', base + 3600, 'Proj:Work:A', 'p'), 'Work:A'), L(E('o', base + 9000, 'Proj:Work:A'), 'Work:A'), END]
     elif k == 1:    # two interleaved sessions inside a block, one crossing midnight
@@ -989,6 +996,23 @@ def gen_blocks_directed(rng):
     elif k == 4:    # the same spelling inside and outside a block names two accounts
         lines = [L(E('i', base + 100, 'Work:A'), 'Work:A'), A('Proj'), L(E('i', base + 200, 'Proj:Work:A'), 'Work:A'),
                  L(E('o', base + 300, 'Proj:Work:A'), 'Work:A'), END, L(E('o', base + 400, 'Work:A'), 'Work:A')]
+    elif k == 6:    # a year directive left open at the end of the file: the open session still ends at --now
+        lines = [Y('year', rng.choice([1999, 2019, 2031, 2056])), L(E('i', base + 100, 'Work:A', 'p'), 'Work:A'), L(E('o', base + 4000, 'Work:A'), 'Work:A'),
+                 L(E('i', base + 5000, 'Work:A'), 'Work:A')]
+    elif k == 7:    # apply year and an apply account above it, both left open, a session open: closed at --now all the same
+        lines = [Y('apply-year', rng.choice([1990, 2019, 2030])), A('Proj'), L(E('i', base + 100, 'Proj:Work:A'), 'Work:A'),
+                 L(E('i', base + 200, 'Proj:Home'), 'Home'), L(E('o', base + 300, 'Proj:Home'), 'Home')]
+        if rng.random() < 0.5:
+            lines.insert(1, Y('apply-year', 2055))
+    elif k == 8:    # an included file read under an open year directive is closed at that year's end; its own open
+        #             year directive ends with it; the including file is closed at --now
+        child = [Y('apply-year', rng.choice([1990, 2019])), L(E('i', base + 100, 'Work:A'), 'Work:A'), L(E('i', base + 200, 'Home'), 'Home'),
+                 L(E('o', base + 300, 'Work:A'), 'Work:A')]
+        lines = [Y('apply-year', rng.choice([2031, 2056, 1999])), dict(k='include', child=child), L(E('i', base + 50, 'Work:B'), 'Work:B')]
+        if rng.random() < 0.5:
+            lines.insert(2, dict(k='end', text='end apply year'))
+    elif k == 9:    # two year directives at the top, both open at the end
+        lines = [Y('year', 2031), Y('year', 2019), L(E('i', base + 100, 'Home'), 'Home')]
     else:           # an included file with clock lines, included from inside a block; two sessions open in it
         child = [L(E('i', base + 100, 'Work:A'), 'Work:A'), L(E('i', base + 200, 'Home'), 'Home'), L(E('o', base + 300, 'Work:A'), 'Work:A')]
         lines = [L(E('i', base + 50, 'Work:B'), 'Work:B'), A('Proj'), dict(k='include', child=child), END, L(E('o', base + 500, 'Work:B'), 'Work:B')]
@@ -1047,7 +1071,7 @@ def run(ctx, n_override=None):
             noted['an alias directive is not applied to the account named on a time-clock line (F110, observation)'] = \
                 noted.get('an alias directive is not applied to the account named on a time-clock line (F110, observation)', 0) + 1
         if any(i['now'] != case['now'] for i in insts):
-            k = 'a year / apply year directive in force at the end of a file replaces --now as the time at which its open sessions are closed (F111, observation)'
+            k = 'an included file read under a year / apply year directive of the including file has its open sessions closed at 31 December of that year, not at --now (F111, observation)'
             noted[k] = noted.get(k, 0) + 1
         for db in (0, 1):
             outs = []
